@@ -1,169 +1,261 @@
+(* Proofs about Pickle/State.v, part 3: running the events of a whole graph, by induction on its size; the load theorem. *)
 From PW Require Import Pickle.State.
 From Coq Require Import ZifyBool ZifyNat.
+From PW Require Import Pickle.StateLoops Pickle.StateSteps.
 Open Scope Z_scope.
 
-(* ---------- chains: every opt-in object has at most one direct opt-in child ---------- *)
-Inductive chain :=
-| CEnd (id : nat) (atoms : list (Z * Z))
-| CLink (id : nat) (pre : list (Z * Z)) (k : Z) (child : chain) (post : list (Z * Z)).
-
-Definition atomf (p : Z * Z) : Z * node := (fst p, Atom (snd p)).
-
-Fixpoint to_node (c : chain) : node :=
-  match c with
-  | CEnd id atoms => Opt id true (map atomf atoms)
-  | CLink id pre k ch post => Opt id true (map atomf pre ++ (k, to_node ch) :: map atomf post)
+(* ---------- size of a graph term (the induction measure) ---------- *)
+Fixpoint nsize (n : node) : nat :=
+  match n with
+  | Atom _ | Ref _ => 1
+  | Lst items => S ((fix go (l : list node) := match l with [] => O | x :: r => (nsize x + go r)%nat end) items)
+  | PObj fields => S ((fix go (l : list (Z * node)) := match l with [] => O | (_, x) :: r => (nsize x + go r)%nat end) fields)
+  | Opt _ _ fields => S ((fix go (l : list (Z * node)) := match l with [] => O | (_, x) :: r => (nsize x + go r)%nat end) fields)
   end.
+Fixpoint isize (l : list node) : nat := match l with [] => O | x :: r => (nsize x + isize r)%nat end.
+Fixpoint fsize (l : list (Z * node)) : nat := match l with [] => O | (_, x) :: r => (nsize x + fsize r)%nat end.
+Lemma nsize_lst items : nsize (Lst items) = S (isize items).
+Proof. reflexivity. Qed.
+Lemma nsize_pobj f : nsize (PObj f) = S (fsize f).
+Proof. reflexivity. Qed.
+Lemma nsize_opt i h f : nsize (Opt i h f) = S (fsize f).
+Proof. reflexivity. Qed.
 
-Definition cid (c : chain) : nat := match c with CEnd id _ | CLink id _ _ _ _ => id end.
+(* ---------- what running the events of one node does to the machine ---------- *)
+Definition P_ann (x : node) : Prop :=
+  forall id hs f, x = Opt id hs f -> forall c u rs, link_ok c ->
+    exists u', mrun (mkM (cstack c) (citer c) u rs) (events_s x true)
+               = inr (mkM (after c id) (Z.of_nat (length (after c id)) - 1) u' (rs ++ spec x (cpat c))).
+Definition P_un (x : node) : Prop :=
+  forall S u rs, exists u', mrun (mkM S (Z.of_nat (length S) - 1) u rs) (events_s x false)
+                            = inr (mkM S (Z.of_nat (length S) - 1) u' (rs ++ spec x [])).
 
-Definition ratom (p : Z * Z) : Z * rval := (fst p, RAtom (snd p)).
-
-(* what each object must be restored with, in the order of the __setstate__ calls (children first) *)
-Fixpoint expected (c : chain) : list (nat * list (Z * rval)) :=
-  match c with
-  | CEnd id atoms => [(id, map ratom atoms)]
-  | CLink id pre k ch post => expected ch ++ [(id, map ratom pre ++ (k, RObj (cid ch)) :: map ratom post)]
+Definition rebind_step (p : pdict) (acc : pdict) (f : Z * node) : pdict :=
+  match snd f with
+  | Opt j _ _ => match dget p (fst f) with Some (PDict _) => dset acc (fst f) (PObjRef j) | _ => acc end
+  | _ => acc
   end.
+Lemma rebind_fold p fields : rebind p fields = fold_left (rebind_step p) fields p.
+Proof. reflexivity. Qed.
 
-Definition go_fields := (fix go (l : list (Z * node)) := match l with [] => [] | (_, x) :: r => events x ++ go r end).
+Definition patinv (c : ctx) (p : pdict) : Prop :=
+  match c with Virtual => p = [] | Real _ F => p <> [] -> fpat F <> [] end.
 
-Lemma go_atoms l : go_fields (map atomf l) = [].
-Proof. induction l as [|[k z] l IH]; simpl; [reflexivity|exact IH]. Qed.
+Lemma direct_names_cons_opt k j h f r : direct_names ((k, Opt j h f) :: r) = k :: direct_names r.
+Proof. reflexivity. Qed.
+Lemma direct_names_cons_other k x r : (forall j h f, x <> Opt j h f) -> direct_names ((k, x) :: r) = direct_names r.
+Proof. intros H. destruct x; try reflexivity. exfalso. eapply H. reflexivity. Qed.
 
-Lemma go_app l1 l2 : go_fields (l1 ++ l2) = go_fields l1 ++ go_fields l2.
-Proof. induction l1 as [|[k x] l1 IH]; simpl; [reflexivity|]. now rewrite IH, app_assoc. Qed.
+Lemma citer_real B F : citer (Real B F) = Z.of_nat (length B).
+Proof. unfold citer. cbn [cstack]. rewrite app_length. cbn [length]. lia. Qed.
 
-Lemma filter_atoms l : filter (fun p : Z * node => is_opt (snd p)) (map atomf l) = [].
-Proof. induction l as [|[k z] l IH]; simpl; [reflexivity|exact IH]. Qed.
+Lemma set_pat_stack_same c : cstack (set_pat c (cpat c)) = cstack c.
+Proof. destruct c as [|B [pi fn fp]]; reflexivity. Qed.
+Lemma set_pat_twice c q q' : set_pat (set_pat c q) q' = set_pat c q'.
+Proof. destruct c; reflexivity. Qed.
+Lemma citer_set_pat c q : citer (set_pat c q) = citer c.
+Proof. destruct c as [|B F]; [reflexivity|]. cbn [set_pat]. rewrite !citer_real. reflexivity. Qed.
+Lemma cpat_set_pat_real B F q : cpat (set_pat (Real B F) q) = q.
+Proof. reflexivity. Qed.
+Lemma set_pat_cpat c : set_pat c (cpat c) = c.
+Proof. destruct c as [|B [pi fn fp]]; reflexivity. Qed.
 
-Lemma rvals_atoms l : map (fun p : Z * node => (fst p, rval_of (snd p))) (map atomf l) = map ratom l.
-Proof. induction l as [|[k z] l IH]; simpl; [reflexivity|now rewrite IH]. Qed.
+Lemma stack_len c q (names : list Z) :
+  citer c + Z.of_nat (length names) = Z.of_nat (length (cstack c ++ rev (map (sub_frame (citer c) q) names))) - 1.
+Proof. unfold citer at 1. rewrite app_length, rev_length, map_length. lia. Qed.
 
-Lemma to_node_opt c : exists f, to_node c = Opt (cid c) true f.
-Proof. destruct c; simpl; eauto. Qed.
-
-Lemma events_end id atoms :
-  events (to_node (CEnd id atoms)) = [ERecreate id [] true; EBuild id (map ratom atoms)].
+(* the loop over the fields of an announced object: the entries of its directly held children are consumed one by
+   one, each child leaves itself behind in the patches of its holder *)
+Lemma run_fields p fs :
+  (forall k x, In (k, x) fs -> P_ann x /\ P_un x) ->
+  forall c u rs, patinv c p ->
+    exists u',
+      mrun (mkM (cstack c ++ rev (map (sub_frame (citer c) p) (direct_names fs))) (citer c + Z.of_nat (length (direct_names fs))) u rs)
+           (evs_ofields fs)
+      = inr (mkM (cstack (set_pat c (fold_left (rebind_step p) fs (cpat c)))) (citer c) u' (rs ++ spec_ofields p fs)).
 Proof.
-  simpl. rewrite filter_atoms. fold go_fields. rewrite go_atoms, rvals_atoms. reflexivity.
+  induction fs as [|[k x] r IH]; intros HP c u rs PI.
+  - exists u. cbn [direct_names filter map rev length evs_ofields mrun fold_left spec_ofields].
+    rewrite !app_nil_r, set_pat_cpat. f_equal. f_equal. lia.
+  - assert (HPr : forall k0 x0, In (k0, x0) r -> P_ann x0 /\ P_un x0) by (intros k0 x0 Hin; apply (HP k0 x0); right; exact Hin).
+    destruct (HP k x (or_introl eq_refl)) as [HA HU].
+    cbn [evs_ofields fold_left spec_ofields]. rewrite mrun_app.
+    assert (OTHER : (forall j h f, x <> Opt j h f) ->
+      exists u', match mrun (mkM (cstack c ++ rev (map (sub_frame (citer c) p) (direct_names ((k, x) :: r)))) (citer c + Z.of_nat (length (direct_names ((k, x) :: r)))) u rs) (events_s x true)
+                 with inr s' => mrun s' (evs_ofields r) | inl e => inl e end
+      = inr (mkM (cstack (set_pat c (fold_left (rebind_step p) r (rebind_step p (cpat c) (k, x))))) (citer c) u'
+                 (rs ++ spec x (match x with Opt _ _ _ => sub_patches p k | _ => [] end) ++ spec_ofields p r))).
+    { intros NO. rewrite (direct_names_cons_other k x r NO), (events_s_flag x NO).
+      rewrite (stack_len c p).
+      destruct (HU (cstack c ++ rev (map (sub_frame (citer c) p) (direct_names r))) u rs) as [u1 E1].
+      rewrite E1. rewrite <- (stack_len c p).
+      destruct (IH HPr c u1 (rs ++ spec x []) PI) as [u2 E2]. exists u2. rewrite E2.
+      assert (RS : rebind_step p (cpat c) (k, x) = cpat c) by (unfold rebind_step; cbn [snd]; destruct x; try reflexivity; exfalso; eapply NO; reflexivity).
+      rewrite RS. rewrite <- app_assoc.
+      destruct x; try reflexivity. exfalso. eapply NO. reflexivity. }
+    destruct x as [z|items|pf|j h f|j]; try (apply OTHER; intros; discriminate).
+    clear OTHER.
+    rewrite direct_names_cons_opt. cbn [map rev length].
+    set (subs := map (sub_frame (citer c) p) (direct_names r)).
+    set (fk := sub_frame (citer c) p k).
+    set (Bk := cstack c ++ rev subs).
+    assert (ST : cstack c ++ rev subs ++ [fk] = cstack (Real Bk fk)) by (unfold Bk; cbn [cstack]; now rewrite app_assoc).
+    assert (IT : citer c + Z.of_nat (S (length (direct_names r))) = citer (Real Bk fk)).
+    { rewrite citer_real. unfold Bk. rewrite app_length, rev_length. unfold subs. rewrite map_length. unfold citer. lia. }
+    rewrite ST, IT.
+    assert (LK : link_ok (Real Bk fk)).
+    { cbn [link_ok]. unfold fk, sub_frame. destruct (dget p k) as [[z|d|o]|] eqn:EG; cbn [fname parent_i dummy]; try reflexivity.
+      destruct c as [|B F]; [cbn [patinv] in PI; subst p; discriminate|].
+      exists F. rewrite citer_real. split; [lia|]. split.
+      - rewrite Nat2Z.id. unfold Bk. cbn [cstack]. rewrite <- app_assoc. cbn [app]. apply nth_error_mid.
+      - apply PI. intros ->. discriminate. }
+    destruct (HA j h f eq_refl (Real Bk fk) u rs LK) as [u1 E1]. rewrite E1.
+    (* where the child leaves the machine *)
+    assert (AF : after (Real Bk fk) j = cstack (set_pat c (rebind_step p (cpat c) (k, Opt j h f))) ++ rev subs
+                 /\ cpat (Real Bk fk) = sub_patches p k
+                 /\ patinv (set_pat c (rebind_step p (cpat c) (k, Opt j h f))) p
+                 /\ cpat (set_pat c (rebind_step p (cpat c) (k, Opt j h f))) = rebind_step p (cpat c) (k, Opt j h f)).
+    { cbn [after]. unfold cpat at 1. cbn [cframe]. unfold fk, sub_frame, sub_patches, rebind_step. cbn [snd fst].
+      destruct (dget p k) as [[z|d|o]|] eqn:EG; cbn [fname parent_i fpat dummy].
+      1,3,4: (split; [unfold Bk; now rewrite set_pat_stack_same|split; [reflexivity|split; [now rewrite set_pat_cpat|now rewrite set_pat_cpat]]]).
+      destruct c as [|B F]; [cbn [patinv] in PI; subst p; discriminate|].
+      rewrite citer_real, Nat2Z.id. unfold Bk. cbn [cstack set_pat]. rewrite <- !app_assoc. cbn [app].
+      rewrite nth_error_mid, update_nth_mid. split; [reflexivity|]. split; [reflexivity|]. split; [|reflexivity].
+      cbn [patinv]. intros _. cbn [fpat]. apply dset_nonempty. }
+    destruct AF as [AF1 [AF2 [AF3 AF4]]].
+    rewrite AF1, AF2.
+    set (c2 := set_pat c (rebind_step p (cpat c) (k, Opt j h f))) in *.
+    assert (CI0 : citer c2 = citer c) by (unfold c2; apply citer_set_pat).
+    assert (IT2 : Z.of_nat (length (cstack c2 ++ rev subs)) - 1 = citer c2 + Z.of_nat (length (direct_names r))).
+    { unfold subs. rewrite <- CI0. symmetry. apply stack_len. }
+    rewrite IT2.
+    assert (CI : citer c2 = citer c) by (unfold c2; apply citer_set_pat).
+    unfold subs. rewrite <- CI.
+    destruct (IH HPr c2 u1 (rs ++ spec (Opt j h f) (sub_patches p k)) AF3) as [u2 E2].
+    exists u2. rewrite E2, AF4. unfold c2. rewrite set_pat_twice, citer_set_pat, <- app_assoc. reflexivity.
 Qed.
 
-Lemma events_link id pre k ch post :
-  events (to_node (CLink id pre k ch post)) =
-  ERecreate id [k] true :: events (to_node ch)
-  ++ [EBuild id (map ratom pre ++ (k, RObj (cid ch)) :: map ratom post)].
+Lemma run_items items :
+  (forall x, In x items -> P_un x) ->
+  forall S u rs, exists u', mrun (mkM S (Z.of_nat (length S) - 1) u rs) (evs_items items)
+                            = inr (mkM S (Z.of_nat (length S) - 1) u' (rs ++ spec_items items)).
 Proof.
-  simpl. fold go_fields. rewrite filter_app, filter_atoms. simpl.
-  destruct (to_node_opt ch) as [f Hf]. rewrite Hf. simpl. rewrite filter_atoms. simpl.
-  rewrite go_app, go_atoms. simpl. fold go_fields. rewrite go_atoms, app_nil_r.
-  rewrite map_app, rvals_atoms. simpl. rewrite rvals_atoms. reflexivity.
+  induction items as [|x r IH]; intros HP S u rs.
+  - exists u. cbn. now rewrite app_nil_r.
+  - cbn [evs_items spec_items]. rewrite mrun_app.
+    destruct (HP x (or_introl eq_refl) S u rs) as [u1 E1]. rewrite E1.
+    destruct (IH (fun y Hy => HP y (or_intror Hy)) S u1 (rs ++ spec x [])) as [u2 E2].
+    exists u2. rewrite E2. now rewrite <- app_assoc.
 Qed.
 
-Definition all_dummy (st : list frame) : Prop := Forall (fun f => f = dummy) st.
-
-Lemma mrun_app s es1 es2 :
-  mrun s (es1 ++ es2) = match mrun s es1 with inr s' => mrun s' es2 | inl e => inl e end.
-Proof. revert s; induction es1 as [|e es1 IH]; intros s; simpl; [reflexivity|]. destruct (mstep s e); [reflexivity|apply IH]. Qed.
-
-Definition after_pop (st : list frame) : list frame := removelast st.
-Definition top_iter (st : list frame) : Z := Z.of_nat (length st) - 1.
-
-Lemma nth_last_dummy (st : list frame) :
-  all_dummy st -> st <> [] -> nth_error st (Z.to_nat (top_iter st)) = Some dummy.
+Lemma run_pfields fields :
+  (forall k x, In (k, x) fields -> P_un x) ->
+  forall S u rs, exists u', mrun (mkM S (Z.of_nat (length S) - 1) u rs) (evs_pfields fields)
+                            = inr (mkM S (Z.of_nat (length S) - 1) u' (rs ++ spec_pfields fields)).
 Proof.
-  intros Ha Hne. unfold top_iter.
-  assert (H : (Z.to_nat (Z.of_nat (length st) - 1) < length st)%nat) by (destruct st; [congruence|cbn [length]; lia]).
-  destruct (nth_error st (Z.to_nat (Z.of_nat (length st) - 1))) as [f|] eqn:E.
-  - apply nth_error_In in E. unfold all_dummy in Ha. rewrite Forall_forall in Ha. now rewrite (Ha f E).
-  - apply nth_error_None in E. lia.
+  induction fields as [|[k x] r IH]; intros HP S u rs.
+  - exists u. cbn. now rewrite app_nil_r.
+  - cbn [evs_pfields spec_pfields]. rewrite mrun_app.
+    destruct (HP k x (or_introl eq_refl) S u rs) as [u1 E1]. rewrite E1.
+    destruct (IH (fun k0 y Hy => HP k0 y (or_intror Hy)) S u1 (rs ++ spec x [])) as [u2 E2].
+    exists u2. rewrite E2. now rewrite <- app_assoc.
 Qed.
 
-Lemma cur_frame_dummy st u h r :
-  all_dummy st -> cur_frame (mkM st (top_iter st) u h r) = Some dummy.
+Lemma in_isize x items : In x items -> (nsize x <= isize items)%nat.
+Proof. induction items as [|y r IH]; intros H; [destruct H|]. destruct H as [->|H]; cbn [isize]; [lia|]. specialize (IH H). lia. Qed.
+Lemma in_fsize k x fields : In (k, x) fields -> (nsize x <= fsize fields)%nat.
+Proof. induction fields as [|[k' y] r IH]; intros H; [destruct H|]. destruct H as [E|H]; cbn [fsize]; [inversion E; subst; lia|]. specialize (IH H). lia. Qed.
+
+Lemma rebind_nil fs : fold_left (rebind_step []) fs [] = [].
+Proof. induction fs as [|[k x] r IH]; [reflexivity|]. cbn [fold_left]. unfold rebind_step at 2. cbn [snd fst dget]. destruct x; exact IH. Qed.
+
+Lemma after_set_pat c q id : after (set_pat c q) id = after c id.
+Proof. destruct c as [|B F]; reflexivity. Qed.
+Lemma link_ok_set_pat c q : link_ok c -> link_ok (set_pat c q).
+Proof. destruct c as [|B F]; [trivial|]. cbn [set_pat link_ok fname parent_i]. trivial. Qed.
+Lemma patinv_self c : patinv c (cpat c).
+Proof. destruct c as [|B F]; [reflexivity|]. cbn. trivial. Qed.
+
+Lemma run_node_sz m : forall x, (nsize x < m)%nat -> P_ann x /\ P_un x.
 Proof.
-  intros Ha. unfold cur_frame. cbn [iter stack].
-  destruct st as [|f st'] eqn:E.
-  - reflexivity.
-  - assert (top_iter (f :: st') <? 0 = false) as -> by (unfold top_iter; cbn [length]; lia).
-    unfold nthZ. assert (top_iter (f :: st') <? 0 = false) as -> by (unfold top_iter; cbn [length]; lia).
-    apply nth_last_dummy; [exact Ha|discriminate].
+  induction m as [|m IHm]; intros x Hs; [lia|].
+  destruct x as [z|items|pf|id hs f|j].
+  - split; [intros ? ? ? E; discriminate|]. intros S u rs. exists u. cbn. now rewrite app_nil_r.
+  - split; [intros ? ? ? E; discriminate|]. intros S u rs. rewrite events_s_lst, spec_lst.
+    apply run_items. intros y Hy. apply IHm. rewrite nsize_lst in Hs. pose proof (in_isize y items Hy). lia.
+  - split; [intros ? ? ? E; discriminate|]. intros S u rs. rewrite events_s_pobj, spec_pobj.
+    apply run_pfields. intros k y Hy. apply IHm. rewrite nsize_pobj in Hs. pose proof (in_fsize k y pf Hy). lia.
+  - assert (HF : forall k y, In (k, y) f -> P_ann y /\ P_un y).
+    { intros k y Hy. apply IHm. rewrite nsize_opt in Hs. pose proof (in_fsize k y f Hy). lia. }
+    assert (CORE : forall c u rs, link_ok c ->
+      exists u', mrun (mkM (cstack c) (citer c) u rs) (ERecreate id (direct_names f) hs true :: evs_ofields f ++ [EBuild id (state_of f)])
+                 = inr (mkM (after c id) (Z.of_nat (length (after c id)) - 1) u' (rs ++ spec (Opt id hs f) (cpat c)))).
+    { intros c u rs LK. cbn [mrun]. rewrite step_recreate. rewrite mrun_app.
+      destruct (run_fields (cpat c) f HF c u rs (patinv_self c)) as [u1 E1]. rewrite E1.
+      set (c3 := set_pat c (fold_left (rebind_step (cpat c)) f (cpat c))).
+      rewrite <- (citer_set_pat c (fold_left (rebind_step (cpat c)) f (cpat c))). fold c3.
+      cbn [mrun]. rewrite (step_build c3 u1 _ id (state_of f) (link_ok_set_pat c _ LK)).
+      exists false. unfold c3. rewrite after_set_pat. rewrite spec_opt, rebind_fold.
+      rewrite <- app_assoc.
+      destruct c as [|B F]; [cbn [set_pat]; unfold cpat; cbn [cframe dummy fpat]; now rewrite rebind_nil|reflexivity]. }
+    split.
+    + intros id' hs' f' E. inversion E; subst id' hs' f'. intros c u rs LK. rewrite events_s_opt. apply CORE. exact LK.
+    + intros S u rs. rewrite events_s_opt. cbn [mrun]. rewrite step_recreate_un.
+      destruct (CORE (Real S dummy) u rs eq_refl) as [u' E']. cbn [mrun] in E'. exists u'. exact E'.
+  - split; [intros ? ? ? E; discriminate|]. intros S u rs. exists u. cbn. now rewrite app_nil_r.
 Qed.
 
-Lemma remove_nth_last {A} (l : list A) : l <> [] -> remove_nth l (length l - 1) = removelast l.
+Theorem run_node x : P_ann x /\ P_un x.
+Proof. apply (run_node_sz (S (nsize x))). lia. Qed.
+
+(* ---------- a whole load ---------- *)
+Definition clean_end (g : node) (p : pdict) (s : mst) : Prop :=
+  (stack s = [] /\ iter s = -1)
+  \/ ((forall id hs f, g <> Opt id hs f) /\ p <> [] /\ stack s = [mkFr (-1) None p] /\ iter s = 0).
+
+Lemma mexit_clean g p s : clean_end g p s -> mexit s = inr s.
 Proof.
-  induction l as [|x l IH]; intros H; [congruence|].
-  destruct l as [|y l]; [reflexivity|].
-  replace (length (x :: y :: l) - 1)%nat with (S (length (y :: l) - 1)) by (cbn [length]; lia).
-  simpl remove_nth. simpl removelast. f_equal. apply IH. discriminate.
+  unfold mexit. intros [[H1 H2]|[_ [_ [H1 H2]]]]; destruct (unused s); try reflexivity; rewrite H1, H2; reflexivity.
 Qed.
 
-(* restoring one object on top of a stack of placeholder frames *)
-Lemma build_on_dummies st u h r id state :
-  all_dummy st ->
-  mstep (mkM st (top_iter st) u h r) (EBuild id state) =
-  inr (mkM (after_pop st) (match st with [] => -1 | _ => top_iter st - 1 end) false h (r ++ [(id, state)])).
+Theorem load_events_spec g p :
+  exists s, load_events (events_s g true) p = inr s /\ restored s = spec g (top_patches g p) /\ clean_end g p s.
 Proof.
-  intros Ha. unfold mstep. rewrite (cur_frame_dummy st u h r Ha).
-  unfold patches_of. cbn [faddr dummy]. cbn [apply_dict fold_left].
-  unfold child_restored. cbn [iter stack unused hp restored].
-  assert (top_iter st =? Z.of_nat (length st) - 1 = true) as -> by (unfold top_iter; lia). cbn [negb].
-  rewrite (cur_frame_dummy st u h (r ++ [(id, state)]) Ha). cbn [parent_i dummy fname faddr].
-  assert (-1 <? 0 = true) as -> by reflexivity. cbn.
-  destruct st as [|f st'].
-  - reflexivity.
-  - assert (top_iter (f :: st') <? 0 = false) as -> by (unfold top_iter; cbn [length]; lia).
-    unfold after_pop. rewrite <- remove_nth_last by discriminate.
-    f_equal. f_equal. unfold top_iter. f_equal. simpl length. lia.
+  destruct (run_node g) as [HA HU]. unfold load_events.
+  assert (NONOPT : (forall id hs f, g <> Opt id hs f) ->
+    exists s, match mrun (enter p) (events_s g true) with inr s => mexit s | inl e => inl e end = inr s
+              /\ restored s = spec g (top_patches g p) /\ clean_end g p s).
+  { intros NO. rewrite (events_s_flag g NO).
+    assert (TP : top_patches g p = []) by (destruct g; try reflexivity; exfalso; eapply NO; reflexivity).
+    rewrite TP.
+    destruct p as [|e p'].
+    - destruct (HU [] true []) as [u' E]. cbn [enter]. cbn [length] in E. cbn [Z.of_nat] in E.
+      replace (0 - 1) with (-1) in E by lia. rewrite E.
+      eexists. split; [apply (mexit_clean g []); left; split; reflexivity|]. split; [reflexivity|left; split; reflexivity].
+    - destruct (HU [mkFr (-1) None (e :: p')] true []) as [u' E]. cbn [enter]. cbn [length] in E.
+      replace (Z.of_nat 1 - 1) with 0 in E by lia. rewrite E.
+      eexists. split; [apply (mexit_clean g (e :: p')); right; repeat split; try assumption; discriminate|].
+      split; [reflexivity|right; repeat split; try assumption; discriminate]. }
+  destruct g as [z|items|pf|id hs f|j]; try (apply NONOPT; intros; discriminate).
+  clear NONOPT. cbn [top_patches].
+  destruct p as [|e p'].
+  - destruct (HA id hs f eq_refl Virtual true [] I) as [u' E]. cbn [enter].
+    change (cstack Virtual) with (@nil frame) in E. change (citer Virtual) with (-1) in E. rewrite E.
+    cbn [after length Z.of_nat]. replace (0 - 1) with (-1) by lia.
+    eexists. split; [apply (mexit_clean (Opt id hs f) []); left; split; reflexivity|]. split; [reflexivity|left; split; reflexivity].
+  - assert (LK : link_ok (Real [] (mkFr (-1) None (e :: p')))) by reflexivity.
+    destruct (HA id hs f eq_refl (Real [] (mkFr (-1) None (e :: p'))) true [] LK) as [u' E]. cbn [enter].
+    change (cstack (Real [] (mkFr (-1) None (e :: p')))) with [mkFr (-1) None (e :: p')] in E.
+    change (citer (Real [] (mkFr (-1) None (e :: p')))) with 0 in E. rewrite E.
+    cbn [after fname length Z.of_nat]. replace (0 - 1) with (-1) by lia.
+    eexists. split; [apply (mexit_clean (Opt id hs f) (e :: p')); left; split; reflexivity|]. split; [reflexivity|left; split; reflexivity].
 Qed.
 
-Lemma recreate_leaf st u h r id :
-  all_dummy st ->
-  mstep (mkM st (top_iter st) u h r) (ERecreate id [] true) = inr (mkM st (top_iter st) u h r).
-Proof.
-  intros Ha. unfold mstep. cbn [negb]. unfold break_patches. rewrite (cur_frame_dummy st u h r Ha). reflexivity.
-Qed.
+(* dumps followed by loads, for the graphs on which the pickler's bookkeeping of announcements coincides with the
+   structure of the graph (the top-level object and every directly held first occurrence are announced, nothing else) *)
+Definition announced_structurally (g : node) : Prop := dump_events g = events_s g true.
 
-Lemma recreate_link st u h r id k :
-  all_dummy st ->
-  mstep (mkM st (top_iter st) u h r) (ERecreate id [k] true) =
-  inr (mkM (st ++ [dummy]) (top_iter (st ++ [dummy])) u h r).
-Proof.
-  intros Ha. unfold mstep. cbn [negb]. unfold break_patches. rewrite (cur_frame_dummy st u h r Ha).
-  unfold patches_of. cbn [faddr dummy sub_frames dget iter stack unused hp restored].
-  unfold insert_at.
-  assert (Z.to_nat (top_iter st + 1) = length st) as -> by (unfold top_iter; lia).
-  rewrite firstn_all, skipn_all. rewrite app_nil_r.
-  f_equal. f_equal. unfold top_iter. rewrite app_length. simpl. lia.
-Qed.
-
-Lemma all_dummy_snoc st : all_dummy st -> all_dummy (st ++ [dummy]).
-Proof. intros H. apply Forall_app. split; [exact H|constructor; [reflexivity|constructor]]. Qed.
-
-Lemma removelast_snoc {A} (l : list A) x : removelast (l ++ [x]) = l.
-Proof. apply removelast_last. Qed.
-
-(* the heart of C14 on chains: any depth, on top of any stack of placeholder frames *)
-Lemma chain_restored c : forall st u h r,
-  all_dummy st ->
-  mrun (mkM st (top_iter st) u h r) (events (to_node c)) =
-  inr (mkM (after_pop st) (match st with [] => -1 | _ => top_iter st - 1 end) false h (r ++ expected c)).
-Proof.
-  induction c as [id atoms|id pre k ch IH post]; intros st u h r Ha.
-  - rewrite events_end. cbn [mrun]. rewrite recreate_leaf by exact Ha.
-    rewrite build_on_dummies by exact Ha. reflexivity.
-  - rewrite events_link. cbn [mrun]. rewrite recreate_link by exact Ha.
-    rewrite mrun_app. rewrite IH by (now apply all_dummy_snoc).
-    unfold after_pop at 1. rewrite removelast_snoc.
-    assert (Hi : match st ++ [dummy] with [] => -1 | _ => top_iter (st ++ [dummy]) - 1 end = top_iter st).
-    { destruct st as [|f0 st0]; [reflexivity|]. cbn [app]. unfold top_iter. cbn [length]. rewrite app_length. cbn [length]. lia. }
-    rewrite Hi. cbn [mrun]. rewrite build_on_dummies by exact Ha. cbn [expected].
-    rewrite <- app_assoc. reflexivity.
-Qed.
-
-Theorem chain_loads c :
-  load (to_node c) [] None = inr (mkM [] (-1) false [] (expected c)).
-Proof.
-  unfold load, enter.
-  pose proof (chain_restored c [] true [] [] (Forall_nil _)) as H. cbn in H. rewrite H. reflexivity.
-Qed.
+Theorem load_spec g p :
+  announced_structurally g ->
+  exists s, load g p = inr s /\ restored s = spec g (top_patches g p) /\ clean_end g p s.
+Proof. intros H. unfold load. rewrite H. apply load_events_spec. Qed.
